@@ -13,6 +13,7 @@ CANARIES = [
     {'name': 'normalize-no-trailing-slash', 'file': 'clastic/route.py',
      'old': "    if is_branch:\n        ret.append('')", 'new': "    if is_branch and len(ret) > 2:\n        ret.append('')"},
 ]
+OWN = [r'dispatch/ensures\[4\]', r'normalize_path']
 QUICK_CANARIES = 2
 
 
